@@ -46,9 +46,9 @@ man = dict(
         add_only=True,
     ),
     engines=[
-        dict(name="pyvc", path="/verif/pyvc", serves_properties=[c["property_id"] for c in checks if "pyvc" in c["engine"]],
+        dict(name="pyvc", path="pyvc", serves_properties=[c["property_id"] for c in checks if "pyvc" in c["engine"]],
              kind_free_text="symbolic executor over the AST of the real abTEM functions (re-read from /repo on every run) generating verification conditions from sidecar contracts; discharged by z3 (cvc5 second opinion)"),
-        dict(name="bounded", path="/verif/bounded", serves_properties=[c["property_id"] for c in checks],
+        dict(name="bounded", path="bounded", serves_properties=[c["property_id"] for c in checks],
              kind_free_text="run-time contracts evaluated on the real functions over a stated finite domain; also the native replay oracle"),
     ],
     checks=checks,
